@@ -88,6 +88,8 @@ def cli_case(case):
         files, origin = e2e.seed_project(rng, seeds, [cid] + rng.sample(REAL_CODEMODS, 2), rng.randint(2, 5), case["manifest"])
         if case["manifest"] == "setup.py" and case.get("trigger_in_manifest"):
             files["setup.py"] = files["setup.py"] + "\n" + rng.choice(seeds[cid])
+        if case.get("manifest_text") is not None:
+            files[case["manifest"]] = case["manifest_text"]
         if case.get("legacy"):
             # a requirements file in a legacy encoding (the reader accepts what chardet recognises), the foreign bytes far from the end
             head = {"cp1251": "# зависимости проекта, не редактировать вручную; список пакетов для сборки и развёртывания\n".encode("cp1251"),
@@ -141,6 +143,11 @@ def search(ctx):
     for enc in ["cp1251", "utf-16", "latin-1"]:
         cases.append({"codemod": rng.choice(["pixee:python/use-defusedxml", "pixee:python/flask-enable-csrf-protection"]), "manifest": "requirements.txt",
                       "legacy": enc, "seed": rng.randint(0, 10**9)})
+    # manifests whose last line has no terminator (the writers re-terminate it: both runs must report the same edit)
+    for m, text in [("requirements.txt", "requests==2.31.0\nflask>=2"), ("setup.cfg", "[metadata]\nname = x\n\n[options]\ninstall_requires =\n    requests\n    flask"),
+                    ("pyproject.toml", '[project]\nname = "x"\nversion = "0.1"\ndependencies = [\n    "requests",\n]'),
+                    ("setup.py", 'from setuptools import setup\n\nsetup(\n    name="x",\n    install_requires=[\n        "requests",\n    ],\n)')]:
+        cases.append({"codemod": "pixee:python/use-defusedxml", "manifest": m, "manifest_text": text, "seed": rng.randint(0, 10**9)})
     for c, r in zip(cases, impl.pool_map(cli_case, cases)):
         if r[0] != "ok":
             ctx.broke("c04 cli harness", r[1]); continue
